@@ -405,6 +405,141 @@ theorem nextBack_spec (src : List Char) : BackSpec src (nextBack src) := by
             omega
       · exact ⟨post, wpost, e⟩
 
+/-! ### shape of the yielded items -/
+
+/-- An item is a blank-line marker, a `//` (not `///`) comment without a newline, or a
+    `/* … */` comment. -/
+def ItemShape (it : List Char) : Prop :=
+  it = [] ∨ (isLineComment it = true ∧ '\n' ∉ it) ∨
+    (startsWith ['/', '*'] it = true ∧ endsWith ['*', '/'] it = true)
+
+theorem mem_dropLast {c : Char} {l : List Char} (h : c ∈ l.dropLast) : c ∈ l :=
+  List.mem_of_mem_take (by rw [List.dropLast_eq_take] at h; exact h)
+
+theorem firstLine_no_nl (s cl : List Char) (h : firstLine? s = some cl) : '\n' ∉ cl := by
+  unfold firstLine? at h
+  have key : '\n' ∉ s.takeWhile (· != '\n') := by
+    intro hm
+    have := mem_takeWhile_imp (· != '\n') s _ hm
+    simp at this
+  split at h
+  · cases h
+  · simp only at h
+    split at h
+    · injection h with h; subst h
+      unfold stripCr
+      split
+      · intro hm; exact key (mem_dropLast hm)
+      · exact key
+    · injection h with h; subst h; exact key
+
+theorem next_item_shape (src it r : List Char) (h : next src = .yield it r) : ItemShape it := by
+  unfold next at h
+  split at h
+  · cases h
+  · generalize trimBoth wsNoNl src = s at h
+    simp only at h
+    split at h
+    · rename_i hlc
+      have hs : s ≠ [] := by
+        intro h'; subst h'; simp [isLineComment, startsWith] at hlc
+      obtain ⟨cl, r0, hfl, hsr, hr⟩ := firstLine_spec s hs
+      have hnn := firstLine_no_nl s cl hfl
+      rw [hfl] at h
+      simp only at h
+      have hcl : it = cl := by
+        split at h
+        · cases h
+        · split at h
+          · split at h
+            · cases h
+            · injection h with h1 _; exact h1.symm
+          · split at h
+            · split at h
+              · cases h
+              · injection h with h1 _; exact h1.symm
+            · injection h with h1 _; exact h1.symm
+      subst hcl
+      right; left
+      refine ⟨?_, hnn⟩
+      -- `it` is a prefix of `s` that ends at a line end; `s` starts with "//" but not "///"
+      have h2 : startsWith ['/', '/'] s = true ∧ startsWith ['/', '/', '/'] s = false := by
+        simp [isLineComment] at hlc; exact hlc
+      obtain ⟨t, ht⟩ := startsWith_iff.mp h2.1
+      match it, hsr, hnn with
+      | [], hsr, _ =>
+        simp at hsr; subst hsr
+        rcases hr with h' | ⟨r', h'⟩ | ⟨r', h'⟩ <;> rw [h'] at ht <;> simp at ht
+      | [c], hsr, _ =>
+        rw [ht] at hsr
+        simp at hsr
+        obtain ⟨_, h3⟩ := hsr
+        rcases hr with h' | ⟨r', h'⟩ | ⟨r', h'⟩ <;> rw [h'] at h3 <;> simp at h3
+      | c1 :: c2 :: rest, hsr, _ =>
+        rw [ht] at hsr
+        simp at hsr
+        obtain ⟨e1, e2, e3⟩ := hsr
+        subst e1 e2
+        simp only [isLineComment, Bool.and_eq_true, Bool.not_eq_true']
+        refine ⟨startsWith_iff.mpr ⟨rest, rfl⟩, ?_⟩
+        cases hrest : startsWith ['/', '/', '/'] ('/' :: '/' :: rest) with
+        | false => rfl
+        | true =>
+          exfalso
+          obtain ⟨u, hu⟩ := startsWith_iff.mp hrest
+          have : startsWith ['/', '/', '/'] s = true := by
+            apply startsWith_iff.mpr
+            refine ⟨u ++ r0, ?_⟩
+            rw [ht, e3]
+            simp at hu
+            simp [hu]
+          rw [this] at h2
+          exact absurd h2.2 (by simp)
+    · split at h
+      · rename_i hbc
+        cases hf : findSub ['*', '/'] s with
+        | none => rw [hf] at h; cases h
+        | some i =>
+          rw [hf] at h
+          simp only at h
+          obtain ⟨a, b, hab, hl⟩ := findSub_spec _ _ _ hf
+          have hlen : i + 2 ≤ s.length := by rw [hab]; simp; omega
+          simp only [sliceTo, sliceFrom, hlen, if_true] at h
+          injection h with h1 _
+          subst h1
+          right; right
+          have htake : List.take (i + 2) s = a ++ ['*', '/'] := by
+            rw [hab, ← hl]
+            have : a ++ ['*', '/'] ++ b = (a ++ ['*', '/']) ++ b := rfl
+            rw [List.take_append_of_le_length (by simp)]
+            exact List.take_of_length_le (by simp)
+          rw [htake]
+          refine ⟨?_, endsWith_iff.mpr ⟨a, rfl⟩⟩
+          obtain ⟨t, ht⟩ := startsWith_iff.mp hbc
+          -- the first occurrence of "*/" in "/*…" is at index ≥ 1, so `a` is not empty
+          cases a with
+          | nil => rw [ht] at hab; simp at hab
+          | cons a1 a' =>
+            cases a' with
+            | nil =>
+              rw [ht] at hab; simp at hab
+              obtain ⟨e1, e2, _⟩ := hab
+              subst e1
+              apply startsWith_iff.mpr
+              exact ⟨['/'], by simp⟩
+            | cons a2 a'' =>
+              rw [ht] at hab; simp at hab
+              obtain ⟨e1, e2, _⟩ := hab
+              subst e1 e2
+              apply startsWith_iff.mpr
+              exact ⟨a'' ++ ['*', '/'], by simp⟩
+      · split at h
+        · split at h
+          · cases h
+          · injection h with h1 _
+            left; exact h1.symm
+        · cases h
+
 /-! ### draining the iterator -/
 
 theorem next_no_panic (src : List Char) : next src ≠ .panic := by
@@ -491,6 +626,35 @@ theorem drain_nextBack (n : Nat) (s : List Char) (hn : s.length < n) :
       obtain ⟨its, fin, hd, hr⟩ := ih r (by omega)
       refine ⟨it :: its, fin, ?_, r, sep, post, h2, h3, e, hr⟩
       simp only [hd, Run.cons]
+
+theorem drain_next_shape (n : Nat) (s : List Char) (its : List (List Char)) (fin : List Char)
+    (h : drain next n s = .done its fin) : ∀ it ∈ its, ItemShape it := by
+  induction n generalizing s its fin with
+  | zero => simp [drain] at h
+  | succ n ih =>
+    simp only [drain] at h
+    cases hnx : next s with
+    | panic => rw [hnx] at h; cases h
+    | stop r =>
+      rw [hnx] at h
+      injection h with h1 _
+      subst h1
+      intro it hit; cases hit
+    | yield it0 r =>
+      rw [hnx] at h
+      simp only at h
+      cases hd : drain next n r with
+      | panic => rw [hd] at h; cases h
+      | fuel => rw [hd] at h; cases h
+      | done its' fin' =>
+        rw [hd] at h
+        simp only [Run.cons] at h
+        injection h with h1 _
+        subst h1
+        intro it hit
+        rcases List.mem_cons.mp hit with rfl | hit
+        · exact next_item_shape s _ r hnx
+        · exact ih r its' fin' hd it hit
 
 /-- The non-whitespace characters of a text, in order. -/
 def nonWs (l : List Char) : List Char := l.filter (fun c => !isWs c)
